@@ -24,6 +24,7 @@ TraceInit ==
     /\ pc = "idle" /\ run = 1 /\ mode = "follow"
     /\ decor = Traces[tid].prog.decor
     /\ onexc = Traces[tid].prog.onexc
+    /\ xfdec = Traces[tid].prog.xfdec
     /\ script = Traces[tid].prog.script
     /\ cur = None /\ pos = 0 /\ upcalled = FALSE
     /\ stack = <<>> /\ registered = <<>> /\ ran = <<>> /\ seen = <<>> /\ raised = <<>>
